@@ -2,11 +2,17 @@
 (* C19, contract half: what recorded executions must satisfy (see Threads.tla for the interleaving model). *)
 EXTENDS Naturals, Sequences
 \* ---- contract for recorded executions
-\* the per-context footprint: no I/O buffer of the library lies in static storage, and the only process-wide
-\* variables the library writes are the logging settings
-Footprint(staticIoBufs, globalsWritten, allowed) ==
-    /\ staticIoBufs = 0
-    /\ \A i \in 1..Len(globalsWritten) : \E j \in 1..Len(allowed) : globalsWritten[i] = allowed[j]
+\* The per-context footprint.  (1) The library closes only descriptors it created itself: the descriptor table is
+\* process-wide, closing a number that is not the library's own - closed before, or meanwhile handed to another
+\* thread - is interference whatever the timing.  (2) An I/O buffer in static storage, or a process-wide variable
+\* other than the logging settings that the library writes, is interference exactly when it is accessed without
+\* synchronisation; `raced` is the happens-before race detector's verdict on library-owned memory for the same
+\* scenarios run by several threads at once.
+Unexpected(globalsWritten, allowed) == \E i \in 1..Len(globalsWritten) : \A j \in 1..Len(allowed) : globalsWritten[i] # allowed[j]
+Footprint(staticIoBufs, globalsWritten, allowed, foreignCloses, raced) ==
+    /\ foreignCloses = 0
+    /\ raced => (staticIoBufs = 0 /\ ~Unexpected(globalsWritten, allowed))
 \* every scenario run concurrently with others produced exactly what it produces alone
 SameAsSerial(serialDigest, concurrentDigest) == serialDigest = concurrentDigest
+\* (a data race reported on library-owned memory has no action at all: Trace_Threads rejects it)
 =============================================================================
